@@ -698,9 +698,13 @@ impl NotificationProtocol {
             // outbound substream for previous connection still pending, reject inbound substream
             // and wait for the outbound substream state to conclude as either succeeded or failed
             // before accepting any inbound substreams.
+            //
+            // `pending_open` may name a substream whose open failure has already been processed
+            // (it is kept so that the failure is not reported twice); such a substream is not
+            // pending anymore and must not block inbound substreams forever.
             PeerState::Closed {
                 pending_open: Some(substream_id),
-            } => {
+            } if self.pending_outbound.contains_key(&substream_id) => {
                 tracing::debug!(
                     target: LOG_TARGET,
                     ?peer,
@@ -714,7 +718,7 @@ impl NotificationProtocol {
                 };
             }
             // the peer state is closed so this is a fresh inbound substream.
-            PeerState::Closed { pending_open: None } => {
+            PeerState::Closed { .. } => {
                 self.negotiation.read_handshake(peer, substream);
 
                 context.state = PeerState::Validating {
